@@ -493,6 +493,149 @@ theorem C07_image_order_independent (al : Option Nat) (thr : Nat) (bs : List (Li
     simp [List.getD_eq_getElem?_getD, List.getElem?_replicate]
     split <;> rfl
 
+/-! ## End to end: every externalised tensor can be read back from its data file -/
+
+theorem shardRawGo_map {α : Type} (size : α → Nat) (limit : Nat) (al : Option Nat) (thr : Nat)
+    (cur : List α) (sz : Nat) (ts : List α) :
+    (shardRawGo size limit al thr cur sz ts).map (List.map size) =
+      shardRawGo id limit al thr (cur.map size) sz (ts.map size) := by
+  induction ts generalizing cur sz with
+  | nil => simp [shardRawGo]
+  | cons t rest ih =>
+    simp only [shardRawGo, List.map_cons, id]
+    have e : (cur.map size ≠ []) ↔ cur ≠ [] := by simp
+    simp only [e]
+    by_cases hc : alignOffset sz (size t) al thr + size t > limit ∧ cur ≠ []
+    · rw [if_pos hc, if_pos hc, List.map_cons, ih]; simp
+    · rw [if_neg hc, if_neg hc, ih]; simp
+
+/-- the shards of byte strings behind `dataFiles` -/
+def byteShards (bs : List (List Nat)) (maxShard : Option Nat) (al : Option Nat) (athr : Nat) :
+    List (List (List Nat)) :=
+  match maxShard with
+  | none => [bs]
+  | some m => shardRaw List.length m al athr bs
+
+theorem byteShards_flatten (bs : List (List Nat)) (maxShard : Option Nat) (al : Option Nat)
+    (athr : Nat) : (byteShards bs maxShard al athr).flatten = bs := by
+  cases maxShard with
+  | none => simp [byteShards]
+  | some m => exact (C07_shards_partition List.length m al athr bs).1
+
+/-- placements paired with the tensors' bytes, shard by shard -/
+theorem place_zip_from (al : Option Nat) (athr : Nat) (total : Nat) (shards : List (List (List Nat)))
+    (start : Nat) :
+    ((((shards.map (List.map List.length)).zipIdx start).flatMap fun (sh, i) =>
+        (computeInfos al athr sh).map fun inf => (⟨i, total, inf.offset, inf.length⟩ : Placement)).zip
+      shards.flatten) =
+    (shards.zipIdx start).flatMap fun (sh, i) =>
+      ((computeInfos al athr (sh.map List.length)).zip sh).map fun q =>
+        ((⟨i, total, q.1.offset, q.1.length⟩ : Placement), q.2) := by
+  induction shards generalizing start with
+  | nil => rfl
+  | cons sh rest ih =>
+    simp only [List.map_cons, List.zipIdx_cons, List.flatMap_cons, List.flatten_cons]
+    rw [List.zip_append (by simp [computeInfos, computeInfosFrom_length]), ih]
+    congr 1
+    rw [List.zip_map_left]
+    simp [List.map_map, Function.comp_def]
+
+theorem dataFiles_serial (bs : List (List Nat)) (maxShard : Option Nat) (al : Option Nat)
+    (athr : Nat) :
+    dataFiles bs maxShard al athr none =
+      (byteShards bs maxShard al athr).map fun sh => serialImage (writesOf al athr sh) := by
+  unfold dataFiles byteShards
+  cases maxShard <;> rfl
+
+/-- **C07_roundtrip**: for every shard limit, alignment and threshold, pairing the placements
+    `unload_from_model` records (in the order it zips them onto the initializers) with the
+    tensors' bytes: the data file named by the placement exists among the written files and
+    reading `(offset, length)` from it returns exactly that tensor's bytes. -/
+theorem C07_roundtrip (bs : List (List Nat)) (maxShard : Option Nat) (al : Option Nat)
+    (athr : Nat) :
+    ∀ pb ∈ (placeRaw (bs.map List.length) maxShard al athr).zip bs,
+      ∃ img, (dataFiles bs maxShard al athr none)[pb.1.shard]? = some img ∧
+        readAt img pb.1.offset pb.1.length = pb.2 := by
+  intro pb hpb
+  rw [dataFiles_serial]
+  have hkey : ∀ (shards : List (List (List Nat))) (total : Nat),
+      ∀ pb ∈ (shards.zipIdx 0).flatMap (fun (sh, i) =>
+        ((computeInfos al athr (sh.map List.length)).zip sh).map fun q =>
+          ((⟨i, total, q.1.offset, q.1.length⟩ : Placement), q.2)),
+      ∃ img, (shards.map fun sh => serialImage (writesOf al athr sh))[pb.1.shard]? = some img ∧
+        readAt img pb.1.offset pb.1.length = pb.2 := by
+    intro shards total pb hpb
+    simp only [List.mem_flatMap, List.mem_map] at hpb
+    obtain ⟨⟨sh, i⟩, hsh, q, hq, rfl⟩ := hpb
+    have hidx := List.mem_zipIdx hsh
+    have hi : i < shards.length := by have := hidx.2.1; omega
+    have hshi : sh = shards[i] := by have := hidx.2.2; simpa using this
+    refine ⟨serialImage (writesOf al athr sh), by simp [hi, hshi], ?_⟩
+    have hw : (q.1.offset, q.2) ∈ writesOf al athr sh := by
+      simp only [writesOf, List.mem_map]
+      exact ⟨q, hq, rfl⟩
+    have hlen : q.1.length = q.2.length := by
+      have hz : ∀ (cur : Nat) (bs : List (List Nat)) (q : Info × List Nat),
+          q ∈ (computeInfosFrom al athr cur (bs.map List.length)).zip bs →
+            q.1.length = q.2.length := by
+        intro cur bs
+        induction bs generalizing cur with
+        | nil => intro q hq; simp [computeInfosFrom] at hq
+        | cons b rest ih =>
+          intro q hq
+          simp only [List.map_cons, computeInfosFrom, List.zip_cons_cons, List.mem_cons] at hq
+          rcases hq with rfl | hq
+          · rfl
+          · exact ih _ q hq
+      exact hz 0 sh q hq
+    have := (C07_readback_layout al athr sh (writesOf al athr sh) (List.Perm.refl _) 0
+      (q.1.offset, q.2) hw).2
+    simpa [hlen] using this
+  cases maxShard with
+  | none =>
+    have h1 := place_zip_from al athr 1 [bs] 0
+    simp only [List.map_cons, List.map_nil, List.zipIdx_cons, List.zipIdx_nil, List.flatMap_cons,
+      List.flatMap_nil, List.append_nil, List.flatten_cons, List.flatten_nil] at h1
+    have : (placeRaw (bs.map List.length) none al athr).zip bs =
+        ((computeInfos al athr (bs.map List.length)).zip bs).map fun q =>
+          ((⟨0, 1, q.1.offset, q.1.length⟩ : Placement), q.2) := by
+      simpa [placeRaw] using h1
+    rw [this] at hpb
+    exact hkey [bs] 1 pb (by simpa using hpb)
+  | some m =>
+    have hmap : shardRaw id m al athr (bs.map List.length) =
+        (shardRaw List.length m al athr bs).map (List.map List.length) := by
+      simpa [shardRaw] using (shardRawGo_map List.length m al athr [] 0 bs).symm
+    have hflat := (C07_shards_partition List.length m al athr bs).1
+    have h1 := place_zip_from al athr (shardRaw List.length m al athr bs).length
+      (shardRaw List.length m al athr bs) 0
+    rw [hflat] at h1
+    simp only [placeRaw, placeShards, hmap, List.length_map] at hpb
+    rw [h1] at hpb
+    exact hkey _ _ pb hpb
+
+/-- a worker schedule that is a permutation of each shard's writes gives the same data files
+    as serial writing (so `C07_roundtrip` holds for the parallel writer too) -/
+theorem C07_dataFiles_schedule (bs : List (List Nat)) (maxShard : Option Nat) (al : Option Nat)
+    (athr : Nat) (order : List Nat)
+    (hperm : ∀ sh ∈ byteShards bs maxShard al athr,
+      (reorder (writesOf al athr sh) order).Perm (writesOf al athr sh)) :
+    dataFiles bs maxShard al athr (some order) = dataFiles bs maxShard al athr none := by
+  have : ∀ shards : List (List (List Nat)),
+      (∀ sh ∈ shards, (reorder (writesOf al athr sh) order).Perm (writesOf al athr sh)) →
+      (shards.map fun sh => parallelImage (totalSize (computeInfos al athr (sh.map List.length)))
+        (reorder (writesOf al athr sh) order)) =
+      shards.map fun sh => serialImage (writesOf al athr sh) := by
+    intro shards h
+    apply List.map_congr_left
+    intro sh hsh
+    exact C07_image_order_independent al athr sh _ (h sh hsh)
+  unfold dataFiles
+  unfold byteShards at hperm
+  cases maxShard with
+  | none => exact this [bs] hperm
+  | some m => exact this _ hperm
+
 /-! ## Shard file names -/
 
 /-- **C07_filename_inj**: for a fixed base name and shard count, distinct shard indices give
@@ -528,6 +671,28 @@ theorem C07_filename_parts (base : List Char) (idx total : Nat) (sc : Option Nat
     · rw [shardFilename_eq _ _ _ _ ht]
       unfold shardBasename
       split <;> rfl
+
+/-- **C07_filename_dir**: a shard file lives in the directory of the base name, and its file
+    name part is the stem/counter/extension string of `C07_filename_parts` (`posixpath.split`
+    of the shard name returns the directory `posixpath.split` returns for the base name). -/
+theorem C07_filename_dir (base : List Char) (idx total : Nat) (sc : Option Nat) (ht : total ≠ 1) :
+    posixSplit (shardFilename base idx total sc) =
+      ((posixSplit base).1, shardBasename (posixSplit base).2 idx total sc) := by
+  have hslash : '/' ∉ (posixSplit base).2 := by
+    simp only [posixSplit]; exact not_mem_drop_rfindSucc '/' base
+  have hf := slash_not_mem_shardBasename (posixSplit base).2 idx total sc hslash
+  have hfne : shardBasename (posixSplit base).2 idx total sc ≠ [] := by
+    unfold shardBasename; simp
+  rw [shardFilename_eq _ _ _ _ ht]
+  split
+  · rename_i hdir
+    exact posixSplit_join base _ hf hfne hdir
+  · rename_i hdir
+    have hd : (posixSplit base).1 = [] := by simpa using hdir
+    rw [hd]
+    generalize shardBasename (posixSplit base).2 idx total sc = f at *
+    unfold posixSplit
+    simp [(rfindSucc_eq_zero '/' f).mpr hf]
 
 /-! ## Threshold split and re-pointing -/
 
